@@ -337,6 +337,26 @@ def r71(ctx, rep, fns):
                         rep.held('R7.1', fn, '%s row: %s' % (kind, ' ; '.join(texts))[:100],
                                  'same recipe as %d siblings once hoisted invariants are written in place' % n, y)
                         continue
+                # ... or the sibling the vote picked is the one that hoisted something
+                ref_fn0 = [f2 for f2, t2, s2, _ in items if t2 == best][0]
+                my_names = {x.id for st in stmts for x in ast.walk(st) if isinstance(x, ast.Name)}
+                subst_r = {}
+                for f2 in _all_functions(ref_fn0):
+                    for st in f2.node.body:
+                        if isinstance(st, ast.Assign) and len(st.targets) == 1 and isinstance(st.targets[0], ast.Name) \
+                                and st.targets[0].id not in my_names and len(_assigned_value(ref_fn0, st.targets[0].id)) == 1:
+                            subst_r[st.targets[0].id] = st.value
+                if subst_r:
+                    class _S2(ast.NodeTransformer):
+                        def visit_Name(self, node):
+                            if node.id in subst_r and isinstance(node.ctx, ast.Load):
+                                return copy.deepcopy(subst_r[node.id])
+                            return node
+                    best2 = tuple(canon(ast.fix_missing_locations(_S2().visit(copy.deepcopy(st)))) for st in ref)
+                    if best2 == texts:
+                        rep.held('R7.1', fn, '%s row: %s' % (kind, ' ; '.join(texts))[:100],
+                                 'same recipe as %s once its hoisted invariants are written in place' % ref_fn0.name, y)
+                        continue
                 # the same rows whatever the spelling: compare the sequence normal forms of every row the two can yield
                 ref_fn = [f2 for f2, t2, s2, _ in items if t2 == best][0]
                 mine, theirs = _forms(fn).get(kind), _forms(ref_fn).get(kind)
